@@ -80,10 +80,79 @@ func (Engine) Generate(prop, tier string, seed, run uint64) json.RawMessage {
 		wReset = 17 // resets followed by more stores
 	}
 	cts := []string{"", "", "", "text/plain", "application/json", "x"}
+	// a quarter of the runs follow a phase script instead of a uniform mix:
+	// fill, (reset), fill more than before, free a contiguous group of records
+	// (the oldest or the youngest), store again with a low compaction
+	// threshold — in-process compaction with free space in front of, behind
+	// and between live records, also right after a reset
+	var script []string
+	if r.IntN(4) == 0 {
+		p.CleanupMin = int64(32 + r.IntN(400))
+		for i, m := 0, 1+r.IntN(4); i < m; i++ {
+			script = append(script, "store")
+		}
+		if r.IntN(10) < 7 {
+			script = append(script, "reset")
+		}
+		for i, m := 0, 4+r.IntN(7); i < m; i++ {
+			script = append(script, "store-new")
+		}
+		script = append(script, []string{"free-old", "free-young", "free-young", "invalidate"}[r.IntN(4)])
+		for i, m := 0, 1+r.IntN(3); i < m; i++ {
+			script = append(script, []string{"store", "store", "invalidate", "reopen"}[r.IntN(4)])
+		}
+		script = append(script, "store")
+		n = len(script)
+	}
+	var order []uint64 // ids in the order in which they were last stored
+	touch := func(id uint64) {
+		for i, o := range order {
+			if o == id {
+				order = append(order[:i], order[i+1:]...)
+				break
+			}
+		}
+		order = append(order, id)
+	}
 	for i := 0; i < n; i++ {
-		switch k := r.IntN(20); {
+		k := r.IntN(20)
+		storeID := uint64(r.IntN(8))
+		if script != nil {
+			switch script[i] {
+			case "store":
+				k = 0
+			case "store-new":
+				k = 0
+				storeID = uint64(len(order) % 8)
+			case "reset":
+				k = wInv
+				if wReset <= wInv {
+					wReset = wInv + 1
+				}
+				order = nil
+			case "reopen":
+				k = 19
+			case "invalidate":
+				k = 12
+			case "free-old", "free-young":
+				m := 1 + r.IntN(1+len(order)/2)
+				if m > len(order) {
+					m = len(order)
+				}
+				op := Op{K: "invalidate"}
+				if script[i] == "free-old" {
+					op.IDs = append(op.IDs, order[:m]...)
+				} else {
+					op.IDs = append(op.IDs, order[len(order)-m:]...)
+				}
+				p.Ops = append(p.Ops, op)
+				continue
+			}
+		}
+		switch {
 		case k < 12:
-			op := Op{K: "store", ID: uint64(r.IntN(8))}
+			op := Op{K: "store", ID: storeID}
+			touch(storeID)
 			nc := r.IntN(7)
 			if r.IntN(10) == 0 {
 				nc = 9 + r.IntN(12) // content type bitmask beyond one byte
